@@ -133,11 +133,63 @@ def pool(pqdir):
     return P
 
 
+_FM_PARTS = {i: pd.DataFrame({"a": np.arange(i * 5, i * 5 + 5), "b": [float(i)] * 5, "c": np.arange(5) * 2 + i}, index=np.arange(i * 5, i * 5 + 5)) for i in range(3)}
+_SHARED = {}
+
+
+def _fm_load(i, columns=None):
+    """A reader with an OPTIONAL column selection (projection can be pushed into it)."""
+    df = _FM_PARTS[i]
+    return (df if columns is None else df[columns]).copy()
+
+
+def _clip_in_place(df):
+    """The common shape of a user function: edits the partition it is given and returns it."""
+    df.loc[df.a > 3, "b"] = 0.0
+    return df
+
+
+def _shared(kind):
+    """ONE source object per interpreter: the queries of a session are derived from the same collection, as a user's are."""
+    import dask_expr as dx
+
+    if kind not in _SHARED:
+        if kind == "fm":
+            _SHARED[kind] = dx.from_map(_fm_load, [0, 1, 2])
+        else:
+            _SHARED[kind] = dx.from_pandas(pd.DataFrame({"a": np.arange(10), "b": np.arange(10) * 1.5}), npartitions=1)
+    return _SHARED[kind]
+
+
+def _edit_result(q):
+    """Compute, hand the result out, and then edit the RESULT in place (the user owns it)."""
+    res = q.compute()
+    keep = res.copy()
+    res.iloc[0:3, 1] = -99.0
+    res["b"] = -1.0
+    return keep
+
+
+class _Computed:
+    """A query whose observation is a value computed by a user-side recipe."""
+
+    def __init__(self, q, recipe):
+        self.q, self.recipe = q, recipe
+
+
 def pool_scripted(pqdir):
     """Parquet queries with default arguments (no statistics in the cached plan), used by the scripted sessions."""
     import dask_expr as dx
 
     return {
+        "fm_full": lambda: _shared("fm"),
+        "fm_a": lambda: _shared("fm")[["a"]],
+        "fm_b_sum": lambda: _shared("fm")[["b"]].sum(),
+        "fm_a_kept_optimized": lambda: _SHARED.setdefault("fm_a_opt", _shared("fm")[["a"]].optimize()),
+        "fp1_full": lambda: _shared("fp1"),
+        "fp1_b_sum": lambda: _shared("fp1").b.sum(),
+        "fp1_clip_in_place": lambda: _shared("fp1").map_partitions(_clip_in_place, meta=_shared("fp1")._meta),
+        "fp1_result_edited_afterwards": lambda: _Computed(_shared("fp1"), _edit_result),
         "pq_fsspec_default": lambda: dx.read_parquet(pqdir, filesystem="fsspec"),
         "pq_fsspec_default_x": lambda: dx.read_parquet(pqdir, filesystem="fsspec")[["x"]],
         "pq_fsspec_part1_x": lambda: dx.read_parquet(pqdir, filesystem="fsspec").partitions[1][["x"]],
@@ -157,6 +209,10 @@ SCRIPTS = {
     "aggregate-then-length(arrow)": ["pq_arrow_default_sum", "pq_arrow_default", "pq_arrow_default_x", "pq_arrow_calc"],
     "subset-length-then-full-length(arrow)": ["pq_arrow_part1_x", "pq_arrow_default", "pq_arrow_default_x"],
     "plain-peek-then-calculate-divisions(arrow)": ["pq_arrow_default", "pq_arrow_calc", "pq_arrow_default_sum"],
+    "projection-of-a-shared-from_map-source": ["fm_full", "fm_a", "fm_full", "fm_a_kept_optimized", "fm_b_sum", "fm_a_kept_optimized", "fm_full"],
+    "projection-first-of-a-shared-from_map-source": ["fm_b_sum", "fm_full", "fm_a", "fm_full"],
+    "in-place-user-function-on-a-whole-frame-partition": ["fp1_b_sum", "fp1_full", "fp1_clip_in_place", "fp1_b_sum", "fp1_full"],
+    "result-edited-by-its-owner": ["fp1_full", "fp1_result_edited_afterwards", "fp1_full", "fp1_b_sum"],
 }
 
 
@@ -205,8 +261,11 @@ def observe(q):
 
     with warnings.catch_warnings():
         warnings.simplefilter("ignore")
+        recipe = None
+        if isinstance(q, _Computed):
+            q, recipe = q.q, q.recipe
         o = q.optimize(fuse=False)
-        res = q.compute()
+        res = recipe(q) if recipe is not None else q.compute()
         rec = {"plan": o._name, "divisions": [str(d) for d in o.divisions], "logical_divisions": [str(d) for d in q.divisions]}
         try:
             rec["len"] = int(len(q)) if hasattr(q, "__len__") and getattr(q, "ndim", 0) > 0 else None
